@@ -944,6 +944,29 @@ impl<'a> Cx<'a> {
                 return Ok(Tx { pre: x.pre, term: format!("(Rs.errorFromValue {})", x.term), ty: LT::ErrT });
             }
         }
+        // `self.m(args)` in expression position where `m` takes `&mut self`, is not translated and answers a scalar: an effect whose
+        // answer is an input of the generated function (every place is re-read afterwards)
+        if !self.vm_mode && self.path_of(&m.receiver).as_deref() == Some("self") && !self.callees.contains_key(&name) {
+            if let Some(rt) = self.mut_self_method_ret(&name) {
+                let lt = self.conv(&rt);
+                if matches!(lt, LT::I(_) | LT::BV(_) | LT::Bool) {
+                    let mut pre = Vec::new();
+                    let mut texts = Vec::new();
+                    for a in args.iter() {
+                        let (p2, t) = self.arg_text(a);
+                        pre.extend(p2);
+                        texts.push(t);
+                    }
+                    self.has_effects = true;
+                    pre.push(Pre::Let("effs_".to_string(), format!("effs_ ++ [Rs.Eff.mk {} [{}]]", lean_str(&format!("self.{}", name)), texts.join(", "))));
+                    self.invalidate_places();
+                    let v = self.fresh(&format!("ans_{}", name));
+                    let lean = self.declare(&v, lt.clone());
+                    self.inputs.push((lean.clone(), lt.clone(), format!("what the untranslated `self.{}(..)` answers (call in expression position)", name)));
+                    return Ok(Tx { pre, term: lean, ty: lt });
+                }
+            }
+        }
         let recv = self.expr(&m.receiver, None)?;
         // a translated method of `Value` (`into_bool`, `try_as_number`, …): the receiver is its last argument
         if recv.ty == LT::Value {
